@@ -77,8 +77,8 @@ Inductive cop :=
 | CModel (x : op)
 | CRegObj (name o : N) (chans : list N) (cb : option N) (update : bool) (order : list N).
 
-Definition reaches_take (st : state) (chans : list N) (cb : option N) : bool :=
-  match cb with Some _ => forallb (fun c => has_key c (chmap st)) chans | None => false end.
+Definition reaches_take (cm : list (N * list sch)) (chans : list N) (cb : option N) : bool :=
+  match cb with Some _ => forallb (fun c => has_key c cm) chans | None => false end.
 
 Definition cstep (dm : dims) (s : heap * state) (c : cop) : heap * state :=
   match c with
@@ -88,7 +88,7 @@ Definition cstep (dm : dims) (s : heap * state) (c : cop) : heap * state :=
       match lookup o (live (fst s)) with
       | None => s
       | Some _ =>
-          if reaches_take (snd s) chans cb
+          if reaches_take (chmap (snd s)) chans cb
           then (fst (take (fst s) o),
                 fst (register_program dm (snd s) name {| p_tag := o; p_chans := chans; p_meas := snd (take (fst s) o) |}
                                       cb update order))
